@@ -105,6 +105,7 @@ func Load(repo string) (*Prog, error) {
 		fileOf:  map[*ast.File]*packages.Package{},
 	}
 	for i, p := range mod {
+		registerFiles(p.TypesInfo, p.Syntax)
 		P.ByPath[p.PkgPath] = p
 		P.SSAPkgs[p.PkgPath] = spkgs[i]
 		for _, f := range p.Syntax {
